@@ -52,6 +52,8 @@ Section Laws.
     cmp_spec : forall a b, W a -> W b -> cmp L a b = naive (ch a b) (ch b a);
     (* C03: is_bot exactly for the least element *)
     bot_spec : forall a, W a -> (isbot L a = true <-> forall b, W b -> Le a b);
+    (* the carrier has a well-formed value (needed to project laws out of products) *)
+    inh      : exists a, W a;
   }.
 
   (* C03, stated separately because WithTop over a lattice that has a top breaks it *)
